@@ -40,7 +40,7 @@ Theorem C15_declared_is_contained : forall cl r g nx c subj styp actor req scope
   sc = decided_scopes (policy g) scopes /\
   i = effective_type (policy g) req /\
   C15_spec.contained want i x rt lv sto = true /\
-  (forall t, sto = Some t -> t = want /\ exists n, (x = XOpaque (AT n) (tr_sub want) \/ x = XJwt (AT n) (tr_sub want)) /\
+  (forall t, sto = Some t -> t = want /\ exists n, (x = XOpaque (AT n) (tr_sub want) \/ x = XJwt (AT n) (tr_sub want) (tr_actor want)) /\
                                    find_tok n (toks (fst s')) = Some t) /\
   (forall m, rt = RT m -> find_rt m (rtoks (fst s')) <> None).
 Proof. exact declared_is_contained. Qed.
